@@ -3,6 +3,7 @@ Driver commands for C08 (size / capacity decisions).
 -/
 import Driver.Util
 import Matreex.Model.Construct
+import Matreex.Model.Elementwise
 
 namespace Driver
 open Matreex
@@ -34,6 +35,13 @@ def cmdConstruct (ws : List String) : Option String :=
     let a : Hdr := ⟨oa, (Shape.mk ra ca).toAxis oa⟩
     let b : Hdr := ⟨ob, (Shape.mk rb cb).toAxis ob⟩
     pure (decisionStr oa (mulDecision esOut a b))
+  | ["c08", "ew", _variant, esOut, oa, ra, ca, ob, rb, cb] => do
+    -- guard prefix of the elementwise operations on headers (extents no allocation can reach)
+    let esOut ← esOut.toNat?; let oa ← parseOrder oa; let ob ← parseOrder ob
+    let ra ← ra.toNat?; let ca ← ca.toNat?; let rb ← rb.toNat?; let cb ← cb.toNat?
+    let a : Hdr := ⟨oa, (Shape.mk ra ca).toAxis oa⟩
+    let b : Hdr := ⟨ob, (Shape.mk rb cb).toAxis ob⟩
+    pure (resStr toString (ewDecision esOut a b (ra * ca)))
   | ["c08", "hook_check_size", es, n] => do
     let es ← es.toNat?; let n ← n.toNat?
     pure (resStr toString (Gen.Matrix.check_size es n))
